@@ -24,11 +24,19 @@ def owned_record_locals(fn):
         rv = fn.blocks[sd[0]]["stmts"][sd[1]]["rv"]
         if rv["k"] == "use" and "move" in rv["op"] and rv["op"]["move"].get("p"):
             out.append(l)
+        elif rv["k"] == "agg" and rv.get("ak") == "adt" and rv.get("adt") == Z + "ZoneRecord":
+            out.append(l)           # a record built here to be stored
     return out
 
 
 def _equal_found(fc, new, vec):
     """edge fact: an element of the iterated vector compared equal to `new` (`e == &new` true)"""
+    if fc[0] == "call" and fc[1].endswith("::contains") and fc[3] is True and len(fc[2]) == 2 and ("<impl [T]>" in fc[1] or "Vec" in fc[1]):
+        # `vec.contains(&new)`: the same question asked of the library
+        if new is None:
+            return True
+        return (A.same_value(fc[2][1], new) or (A.path_str(fc[2][1]) is not None and A.path_str(fc[2][1]) == A.path_str(new))) and \
+            (vec is None or A.same_value(fc[2][0], vec) or A.path_str(fc[2][0]) == A.path_str(vec))
     if fc[0] == "call" and (fc[1].endswith("PartialEq::eq") or fc[1].endswith(">::eq")) and fc[3] is True and len(fc[2]) == 2:
         a, b = fc[2]
     elif fc[0] == "cmp" and fc[1] == "Eq":
@@ -83,18 +91,19 @@ def run(ctx):
 
     # ---------------------------------------------------------------- C12.2
     n_checked = 0
-    for key in (Z + "ZoneRecords::merge", Z + "merge_zrs_helper", Z + "Zone::merge", Z + "Zones::insert_merge", Z + "Zones::merge"):
+    for key in (Z + "ZoneRecords::merge", Z + "merge_zrs_helper", Z + "Zone::merge", Z + "Zones::insert_merge", Z + "Zones::merge",
+                Z + "ZoneRecords::insert", Z + "ZoneRecords::insert_wildcard"):      # the record being inserted is kept unless it is a duplicate
         f = prog.fn(key)
         fr = A.Resolver(f)
         fc_ = A.Conds(f, fr)
         for l in owned_record_locals(f):
             n_checked += 1
-            drops = A.unconsumed_drops(f, l) or []
-            bad = []
-            for d in drops:
-                dup, _ = fc_.guarded(d, lambda fc: (fc[0] == "call" and fc[1].endswith("::any") and fc[3] is True) or _equal_found(fc, None, None))
-                if not dup:
-                    bad.append(d)
+            # the value may be destroyed only on a path on which it was recognised as a duplicate: walking from its
+            # definition without ever moving it out and without taking a "duplicate found" edge must not reach its drop
+            dup_edges = fc_.edges_where(lambda fc: (fc[0] == "call" and fc[1].endswith("::any") and fc[3] is True) or _equal_found(fc, None, None))
+            sd_ = f.single_def(l)
+            _, feas = A.reachable_tagged(f, sd_[0], removed_edges=dup_edges, want_edges=True)
+            bad = A.unconsumed_drops(f, l, avoid_edges=dup_edges, only_edges=feas) or []
             nm = f.names.get(l, "_%d" % l)
             ctx.check(not bad, "C12.2", "%s:%s" % (A.short(key), nm), "`%s` is moved into the result on every path (or is a detected duplicate)" % nm,
                       "`%s` (%s) is dropped without being merged on a path ending at %s" % (nm, f.local_ty(l)[:60], [f.loc(d) for d in bad]), f.loc(f.single_def(l)[0]))
